@@ -304,6 +304,10 @@ def lenchars(run, p, disc, gmap):
             ok = agg_ in clo and 'len' in clo and 'self.calc_unique_values' in clo and not any(x.startswith('self.calc_') and x.endswith('_length') for x in clo)
             run.ob('C07-LENCHARS', cname, ok, '%s value derives from %s' % (cname, sorted(x for x in clo if x in ('min', 'max', 'len') or x.startswith('self.calc_'))),
                    fn=disc, node=c)
+    if n == 0 and any(o.rule == 'C07-DISCOVERY' for o in run.obs) and all(o.ok for o in run.obs if o.rule == 'C07-DISCOVERY'):
+        run.note('C07-LENCHARS', 'discover_field_constraints does not build the length constraints itself: decided by C07-DISCOVERY, where the '
+                                 'backend length functions answer 1000 / 2000 and byte strings hold multi-byte characters', fn=disc)
+        return
     run.floor('C07-LENCHARS', n, 2)
 
 
@@ -398,7 +402,8 @@ def discovery_cases(p):
     disc = p.method('BaseConstraintDiscoverer', 'discover_field_constraints')
     out = []
     mm = [(1, 5), (0, 5), (0, 0), (-5, 0), (-5, -1), (-5, 5), (None, None)]
-    strings = {3: ['ab', 'c', 'defg'], 20: ['s%02d' % i for i in range(20)], 21: ['t%02d' % i for i in range(21)], 1: ['only']}
+    strings = {3: ['ab', 'c', 'defg'], 20: ['s%02d' % i for i in range(20)], 21: ['t%02d' % i for i in range(21)], 1: ['only'],
+               2: [b'caf\xc3\xa9', b'\xe2\x82\xac'], 4: ['caf\u00e9', '\u20ac', '', '\U0001F600\U0001F600']}
     grid = []
     for type_ in ('int', 'real', 'date', 'bool'):
         for length, nnull in ((0, 0), (6, 0), (6, 1), (6, 2), (6, 6)):
@@ -438,8 +443,8 @@ def discovery_cases(p):
         stubs = {'calc_tdda_type': type_, 'get_nrecords': length_eff, 'calc_null_count': nnull_eff, 'calc_non_null_count': nnon_eff,
                  'calc_nunique': nuniq, 'calc_min': m, 'calc_max': M, 'find_rexes': rexes,
                  'calc_unique_values': list(vals) if vals else [],
-                 'calc_min_length': (min(len(v) for v in vals) if vals else None),
-                 'calc_max_length': (max(len(v) for v in vals) if vals else None)}
+                 # the backend's own length functions answer in another unit (bytes, say): discovery must not use them
+                 'calc_min_length': 1000, 'calc_max_length': 2000}
         I = Interp(p, consts={'unicode_string': str, 'byte_string': bytes, 'long_type': int})
         I.safe_modules = {'datetime'}
 
@@ -508,8 +513,9 @@ def discovery_table(run, p, rid='C07-DISCOVERY'):
                     if vals and nuniq <= maxcat and nnon_eff > 0:
                         want['allowed_values'] = list(vals)
                     if nnon_eff > 0 and vals:
-                        want['min_length'] = min(len(v) for v in vals)
-                        want['max_length'] = max(len(v) for v in vals)
+                        chars = [len(v.decode('UTF-8')) if isinstance(v, bytes) else len(v) for v in vals]
+                        want['min_length'] = min(chars)
+                        want['max_length'] = max(chars)
                 elif nnon_eff > 0:
                     if m is not None:
                         want['min'] = m
